@@ -265,3 +265,58 @@ Ltac sym1 :=
   end; rs; try reflexivity.
 Ltac sym := rs; try reflexivity; repeat sym1.
 Ltac fin := cbn [fst snd rev app]; rewrite ?rev_involutive; try reflexivity.
+
+(* ---- symbolic execution that keeps both sides in the form  run fresh (Bind p K) s ------------------- *)
+Lemma run_ret_l fresh {A B} (a : A) (K : A -> prog B) s : run fresh (Bind (Ret a) K) s = run fresh (K a) s.
+Proof. reflexivity. Qed.
+Lemma run_fail_l fresh {A B} e (K : A -> prog B) s : run fresh (Bind (@Fail A e) K) s = Err e.
+Proof. reflexivity. Qed.
+Lemma run_assoc fresh {A B C} (p : prog A) (k : A -> prog B) (h : B -> prog C) s :
+  run fresh (Bind (Bind p k) h) s = run fresh (Bind p (fun a => Bind (k a) h)) s.
+Proof. apply bind_assoc. Qed.
+Lemma run_ret_r fresh {A} (p : prog A) s : run fresh p s = run fresh (Bind p (fun a => Ret a)) s.
+Proof. symmetry. apply bind_ret_r. Qed.
+
+Ltac norm :=
+  cbv beta iota zeta;
+  repeat (first [rewrite run_assoc | rewrite run_ret_l | rewrite run_fail_l | rewrite run_fail]; cbv beta iota zeta).
+
+Ltac decide_cond c := first [eval_bool c | progress lendec].
+
+(* one step on the head of the left-hand side *)
+Ltac sx1 :=
+  lazymatch goal with
+  | |- run ?f (Bind ?p ?K) ?s = _ =>
+    lazymatch p with
+    | (if ?c then _ else _) => decide_cond c
+    | py_while _ _ _ _ =>
+        first [ rewrite py_while_false by (cbv beta iota; first [reflexivity | lendec; reflexivity])
+              | cbn [length]; rewrite py_while_true by (cbv beta iota; first [reflexivity | lendec; reflexivity]) ]
+    | py_nth (rev _) (-1) => rewrite py_nth_m1; cbn [nthP nth_res nth_error ret_res]
+    | py_nth (rev _) (-2) => rewrite py_nth_m2; cbn [nthP nth_res nth_error ret_res]
+    | py_nth (rev _) (-3) => rewrite py_nth_m3; cbn [nthP nth_res nth_error ret_res]
+    | py_nth _ _ => eval_prim p
+    | py_pop (rev (_ :: _)) => rewrite py_pop_rev
+    | py_pop _ => eval_prim p
+    | py_unpack2 ?r => destruct r as [|? [|? [|? ?]]]; cbn [py_unpack2 unpack2 py_unpack3 unpack3]
+    | unpack2 ?r => destruct r as [|? [|? [|? ?]]]; cbn [py_unpack2 unpack2 py_unpack3 unpack3]
+    | py_unpack3 ?r => destruct r as [|? [|? [|? [|? ?]]]]; cbn [py_unpack2 unpack2 py_unpack3 unpack3]
+    | unpack3 ?r => destruct r as [|? [|? [|? [|? ?]]]]; cbn [py_unpack2 unpack2 py_unpack3 unpack3]
+    | foldP _ (py_range 0 2) (rev (_ :: _ :: _)) => rewrite run_pops2
+    | foldP _ (py_range 0 3) (rev (_ :: _ :: _ :: _)) => rewrite run_pops3
+    | foldP _ (py_range 0 _) _ => let v := eval cbv -[label] in p in change p with v
+    | ?c (py_slice_down (rev (?x :: ?y :: ?z :: ?st)) (Some (-1)) (Some (-4))) =>
+        rewrite (py_slice_down_top3 x y z st)
+    | ?c (py_slice_down (rev (?x :: ?y :: ?st)) (Some (-1)) (Some (-3))) =>
+        rewrite (py_slice_down_top2 x y st)
+    | ?c (py_slice_down ?l ?a ?b) =>
+        let v := eval cbv -[label] in (py_slice_down l a b) in change (py_slice_down l a b) with v
+    | _ => apply run_bind_cong; intros ? ?
+    end
+  end; norm; try reflexivity.
+Ltac sx := norm; try reflexivity; repeat sx1.
+
+(* use a proved equality of programs at the head of a run *)
+Lemma run_peq fresh {A B} (p q : prog A) (K : A -> prog B) s :
+  peq p q -> run fresh (Bind p K) s = run fresh (Bind q K) s.
+Proof. intros H. rewrite !run_bind, H. reflexivity. Qed.
